@@ -134,7 +134,7 @@ def run(chk, repo):
     chk.rule("C01-R3", "sample area framing of both line records (Tell at end of prefix, Seek(record_start + record_length))", 8)
     chk.rule("C01-R4", "every position-valued record field is rebased by the chunk offset exactly once", 3)
     chk.rule("C01-R5", "chunk offsets = running record count * record size + size of the file descriptor", 4)
-    chk.rule("C01-R6", "shape, type code, record count/length and byte ranges are wired to the right header/record fields", 9)
+    chk.rule("C01-R6", "shape, type code, record count/length and byte ranges are wired to the right header/record fields, which sit at their reference offsets and widths", 12)
     chk.rule("C01-R7", "one chunk size keys both the offsets table and the row grouping", 4)
     chk.rule("C01-R8", "range helpers equal their specification (normal form)", 6)
     chk.attempt(r1, chk, repo)
@@ -450,6 +450,12 @@ def r6(chk, repo, L):
                     f"{what} is read from header field {path!r}, expected {want!r}" + ("" if path in hdr else " (no such field in the struct)"), key=keyname,
                     sample={"what": what, "field": path})
 
+    # the header fields the pixel chain depends on sit where the format puts them (layout reference)
+    from ..reference import compare
+    PIXEL_FIELDS = ("number_of_sar_data_records", "sar_data_record_length", "sar_related_data_in_the_record.number_of_lines_per_dataset",
+                    "sar_related_data_in_the_record.number_of_data_groups_per_line", "prefix_suffix_data_locators.sar_data_format_type_code",
+                    "sar_related_data_in_the_record.number_of_bytes_per_data_group", "sar_related_data_in_the_record.number_of_bits_per_sample")
+    compare(chk, "C01-R6", L, "image_descriptor", select=lambda p: p in PIXEL_FIELDS)
     es = md.func("extract_shape")
     ret = single_return(es)
     if not isinstance(ret, ast.Tuple) or len(ret.elts) != 2:
